@@ -77,6 +77,11 @@ prop("C07", "E-GEN",
      "2.6 M projects over @root, @a, @b, @c (objects with required/optional/nested own keys or non-objects; allOf = every ordered list of <=2 of the other types, itself and an unregistered name; additionalProperties absent/true/false/typed): Check() must refuse non-object, missing, cyclic, duplicate-key and conflicting-additionalProperties inheritance and otherwise Example() keys must be own-then-inherited in list order, the OpenAPI property listing the same set with optional marks, and every compiled child must be marked with the type it came from and keep its required/optional status.",
      "Any error counts as refusal; InheritedFrom may name the immediate or the declaring ancestor; true and \"any\" are equal.")
 
+prop("C05", "E-GEN",
+     "bounded exhaustive enumeration of schema projects x every registered/withheld subset of type definitions, judged by a reachability reference",
+     "1130 roots with one or two reference sites from all 8 reference positions at the root, in a property or in an array item x all 16 subsets of 4 closed definitions (incl. chains object -> object -> string) x 0-2 unreferenced extra types: UsedUserTypes() must equal the names in the root text without duplicates and regardless of registration, Check() must report 1302 naming a missing type exactly when a name reachable through registered definitions is unregistered, and unreferenced valid types must change no observable.",
+     "Excluded: registered but unreachable types that refer to unregistered types.")
+
 ORDER = ["C%02d" % i for i in range(1, 21)]
 
 def main():
